@@ -6,7 +6,7 @@ EXPLANATION = (
     "The selection decision table of Pattern::best_match is extracted over the five predicates m1=matches(pkg1), m2=matches(pkg2), g=dewey_cmp(v1,GT,v2), l=dewey_cmp(v1,LT,v2), s=pkg1<pkg2 (byte-wise str order) "
     "and compared on all 32 assignments with the spec: neither -> None; one -> that one; both: g -> pkg1, l -> pkg2, tie -> byte-wise smaller name. "
     "v1/v2 must be DeweyVersion::new(PkgName::new(pkgN).pkgversion()) and the comparisons must use dewey::dewey_cmp (the order of C01/C03)."
-    " D-ORDER the order best_match ranks by is the one the tokeniser and dewey_cmp define: C01's D1-TOK-TABLE / D1-ADVANCE / D1-CURSOR / D2-TOK-CASE and D4-COMPARE (C03's CMP rules) verdicts are shared instances of this check.")
+    " D-ORDER the order best_match ranks by is the one the tokeniser and dewey_cmp define: C01's D1-TOK-TABLE / D1-ADVANCE / D1-CURSOR / D2-TOK-CASE and C03's CMP-2..5 / CMP-RET verdicts are shared instances of this check.")
 NOT_DECIDED = [
     "order-independence of pairwise reduction follows from C03 (total preorder) plus the strict antisymmetric tie-break: a pen-and-paper step, not re-proved per run",
     "depends on C01/C03/C18 for the order and the split",
@@ -123,4 +123,5 @@ def run(ctx):
     # ---- D-ORDER: "highest version" is highest under the order that the tokeniser and dewey_cmp define; a slip there (a modifier read one byte
     #      short, a padding branch skipping components) makes best_match return a lower version or depend on the argument order.  The verdicts of
     #      C01's tokeniser table / cursor advance rules and of the comparison discipline (C03's CMP rules, as C01's D4-COMPARE) are shared here.
-    share_rules(ctx, "C01", ("D1-TOK-TABLE", "D1-ADVANCE", "D1-CURSOR", "D2-TOK-CASE", "D4-COMPARE"), "D-ORDER", "dewey::dewey_cmp", 20)
+    share_rules(ctx, "C01", ("D1-TOK-TABLE", "D1-ADVANCE", "D1-CURSOR", "D2-TOK-CASE"), "D-ORDER", "dewey::DeweyVersion::new", 10)
+    share_rules(ctx, "C03", ("CMP-2", "CMP-3", "CMP-4", "CMP-5", "CMP-RET"), "D-ORDER", "dewey::dewey_cmp", 10)
